@@ -68,7 +68,15 @@ pub fn census(v: &View, aidx: ActorIdx) -> Census {
     let mut cen = Census::default();
     let spec = v.sc.spec_of(aidx);
     let has_waiting_timer = |w: &Vec<Work>| w.iter().any(|x| matches!(x, Work::Timer(t) if matches!(t.kind, TimerKind::IntervalWith | TimerKind::DelayedSend)));
-    let subscribes = |w: &Vec<Work>| w.iter().any(|x| matches!(x, Work::Subscribe(_)));
+    // (the broker upgrades its weak entries only while it delivers a publication: a subscription
+    // in a run in which nothing is ever published creates no temporaries)
+    let publishes = |w: &Vec<Work>| w.iter().any(|x| matches!(x, Work::Publish { .. }));
+    let any_publication = v.ops.iter().any(|o| match o.inner {
+        Op::Publish { .. } => !o.skipped(),
+        Op::Send { work, .. } | Op::Call { work, .. } | Op::ForceSend { work, .. } => publishes(work),
+        _ => false,
+    }) || v.sc.actors.iter().any(|a| publishes(&a.on_start));
+    let subscribes = |w: &Vec<Work>| any_publication && w.iter().any(|x| matches!(x, Work::Subscribe(_)));
     if (spec.effective_mailbox().is_some() && has_waiting_timer(&spec.on_start)) || subscribes(&spec.on_start) {
         cen.lib_temporaries_possible = true;
     }
@@ -82,7 +90,7 @@ pub fn census(v: &View, aidx: ActorIdx) -> Census {
                 cen.lib_temporaries_possible = true;
             }
         }
-        if matches!(o.inner, Op::SubscribeExt { .. }) && o.target == Some(aidx) {
+        if any_publication && matches!(o.inner, Op::SubscribeExt { .. }) && o.target == Some(aidx) {
             cen.lib_temporaries_possible = true;
         }
     }
